@@ -329,7 +329,7 @@ func main() {
 	run.DiagFn = "diag"
 	run.ShardSize = 45
 	run.Rule = "segment sets from a mini beaconing (real DefaultExtender, real MACs) over random topologies " +
-		"(3-10 ASes, 1-3 ISDs, core/parent-child/peering/parallel links), random (src,dst) incl. src=dst and core ASes; " +
+		"(3-10 ASes, 1-3 ISDs, core/parent-child/peering/parallel links; in half of them AS numbers are reused across ISDs), random (src,dst) incl. src=dst and core ASes; " +
 		"streams: beaconed | perturbed (expiries, MTUs incl. uint16 wrap, re-originated duplicates, extra/matching peer entries) | " +
 		"mutated (one broken invariant: first ingress, last egress, AS twice, peer egress, peer twice, zero interface, wrong role, " +
 		"timestamp > uint32, single entry) | boundary (empty lists, empty segment -> panic). " +
@@ -342,7 +342,7 @@ func main() {
 	for i := 0; i < n; i++ {
 		r := root.Fork(uint64(i))
 		if i%3 == 0 || topo == nil {
-			topo = topogen.Generate(r, topogen.Options{SparseIfIDs: r.Chance(1, 4)})
+			topo = topogen.Generate(r, topogen.Options{SparseIfIDs: r.Chance(1, 4), ReuseASNumbers: r.Chance(1, 2)})
 			segs = topo.Segments(r, topogen.BeaconOptions{
 				RandomExp: r.Chance(1, 3), Rounds: vgen.Pick(r, 1, 1, 1, 2),
 				AnnouncePct: vgen.Pick(r, 100, 100, 70), MaxLen: vgen.Pick(r, 3, 4, 5),
@@ -529,6 +529,9 @@ func main() {
 		if c.findAll {
 			run.Tally("find_all:true")
 		}
+		if sharedASNumber(paths) {
+			run.Tally("result:path-through-two-ISD-ASes-with-one-AS-number")
+		}
 		term := vgen.App("CCombine", vgen.N(uint64(c.src)), vgen.N(uint64(c.dst)),
 			vgen.ListOf(c.ups, segTerm), vgen.ListOf(c.cores, segTerm), vgen.ListOf(c.downs, segTerm),
 			vgen.B(c.findAll), implTerm)
@@ -567,6 +570,20 @@ func segWF(s *seg.PathSegment, core bool) bool {
 		}
 	}
 	return true
+}
+
+// sharedASNumber: some returned path touches two different ISD-ASes with the same AS number.
+func sharedASNumber(paths []combinator.Path) bool {
+	for _, p := range paths {
+		seen := map[addr.AS]addr.IA{}
+		for _, x := range p.Metadata.Interfaces {
+			if ia, ok := seen[x.IA.AS()]; ok && ia != x.IA {
+				return true
+			}
+			seen[x.IA.AS()] = x.IA
+		}
+	}
+	return false
 }
 
 func segStrings(l []*seg.PathSegment) []string {
